@@ -230,6 +230,9 @@ def conservation_case(r, s, rng, i):
     doc = g.doc()
     sp = gendoc.Spelling(rng, eol='\n')
     text = gendoc.serialize(doc, sp)
+    if i % 10 == 7:
+        # headings pushed beyond the deepest level a format has a command for (rendering-control metadata: the output stays a snippet)
+        text = 'Base Header Level: %d\n\n' % rng.choice([2, 3, 4, 6, 8]) + '###### deepest w0\n\nfirst w00\n\n' + text
     src = text.encode('utf-8')
     # footnote definitions sit at the end of the source: body order = order of w-words before them
     m_defs = re.search(r'\n\[[^\]\n]*\]: ', text)
